@@ -39,7 +39,7 @@ def roundtrip(e_json, backticks=False, floats=False):
     text = s1
     if backticks:
         # backtick-quoted names denote the variable between the backticks
-        text = re.sub(r"(<\w+>\w+|\b[xy]\b)", lambda m: "`%s`" % m.group(1), s1)
+        text = re.sub(r"(<\w+>\w*|\b[xy]\b)", lambda m: "`%s`" % m.group(1), s1)     # tag-only names (<t>, <dt>) too
     case = {"kind": "roundtrip", "e": e_json, "s1": s1, "s2": "", "p": ["none"], "err": "",
             "vars": exprgen.data_vars(e_json), "text": text, "backticks": backticks, "floats": floats, "built": built}
     try:
